@@ -48,6 +48,7 @@ def check(repo: Repo) -> Result:
     rows(repo, res)
     refusal(repo, res)
     label_scale(repo, res)
+    decision_tables(repo, res)
     guards(repo, res)
     return res
 
@@ -212,6 +213,120 @@ def label_scale(repo, res):
             if lab == "delta_degC":
                 ok &= fm.get("s1 == 'degC'") is True
     res.check(ok, "_difference_units:delta-labels", fn.where(), "point - point is labelled with the delta unit of the same scale", rid=r3)
+
+
+def _temperature_universe(t):
+    """abstract records for every temperature spelling of the folded table plus the m-/k-prefixed forms of the
+    prefixable ones (scale = prefix x base scale, same offset and dimension: C02-R2)"""
+    from engine.dtable import Rec, Tok
+
+    TEMP = Tok("temperature")
+    temp = DimVec({"temperature": 1})
+    recs = []
+    for sym, row in t.lut_pairs:
+        if row[1] != temp:
+            continue
+        recs.append(Rec(sym, base_value=float(row[0]), base_offset=float(row[2]), dimensions=TEMP, expr=sym))
+        if row[4]:
+            for p, f in (("m", 1e-3), ("k", 1e3)):
+                recs.append(Rec(p + sym, base_value=float(row[0]) * f, base_offset=float(row[2]), dimensions=TEMP, expr=p + sym))
+    other = Rec("m", base_value=1.0, base_offset=0.0, dimensions=Tok("length"), expr="m")
+    return TEMP, recs, other
+
+
+def decision_tables(repo, res):
+    """C08-R5: complete label / refusal table of the two rule functions behind +, - (and max/min/hypot/remainder)
+    over every ordered pair of temperature spellings.  The numbers of a sum or difference are computed in the FIRST
+    operand's scale (C04-R2), so whatever label is returned must have that scale; and affine arithmetic fixes the
+    kind of the result: point +- difference and difference + point are points, difference +- difference and
+    point - point are differences."""
+    from engine.dtable import Rec, decide
+
+    r5 = res.rule("C08-R5", "decision table of _preserve_units / _difference_units over all pairs of temperature spellings: returned label has the first operand's scale and the point/difference kind affine arithmetic demands", floor=390)
+    t = Tables(repo)
+    arr = repo.mod(ARR)
+    TEMP, recs, other = _temperature_universe(t)
+    if len(recs) < 8:
+        raise AnalysisError("fewer than 8 temperature spellings folded from the table")
+    byname = {r.name: r for r in recs}
+    glob = {"temperature": TEMP, "delta_degC": byname.get("delta_degC"), "delta_degF": byname.get("delta_degF")}
+    kind = lambda r: "point" if r.attrs["base_offset"] != 0.0 else "difference"
+    # the refusals __array_ufunc__ itself makes before it asks the rule: every `if <test>: raise` statement of the
+    # binary branch whose test reads the operands' offsets (found by shape, folded like the rule bodies)
+    from engine.dtable import Folder, Tok
+
+    ua = UfuncAnchors(repo)
+    pre_guards, differ_guards = [], []
+
+    def _is_guard(st):
+        return isinstance(st, ast.If) and not st.orelse and len(st.body) == 1 and isinstance(st.body[0], ast.Raise) and "base_offset" in norm(st.test)
+
+    for st in ua.binary:
+        if _is_guard(st):
+            pre_guards.append(st)
+    for st in ast.walk(ua.differ_if):
+        if _is_guard(st):
+            differ_guards.append(st)
+    if not pre_guards or not differ_guards:
+        raise AnalysisError(f"{ua.fn.where()}: the offset guards of the binary branch were not found")
+    rule_tok = {n: Tok(n) for n in ("_preserve_units", "_difference_units", "_comparison_unit", "_arctan2_unit")}
+
+    def guarded(fname, a, b):
+        env = {"u0": a, "u1": b, "unit_operator": rule_tok[fname], "ufunc": Tok("ufunc")}
+        # offset of the conversion u1 -> u0: None exactly when neither unit has an offset (C02-R4)
+        env["offset"] = None if (a.attrs["base_offset"] == 0.0 and b.attrs["base_offset"] == 0.0) else 1.0
+        g = dict(glob)
+        g.update(rule_tok)
+        f = Folder(arr, ua.fn, env, g)
+        for st in pre_guards:
+            if f.truth(st.test):
+                return st
+        if not (a == b):
+            for st in differ_guards:
+                if f.truth(st.test):
+                    return st
+        return None
+
+    for fname, op in (("_preserve_units", "+"), ("_difference_units", "-")):
+        fn = arr.func(fname)
+        res.fn(fn)
+        # non-temperature and single-operand calls keep the first unit
+        for args, tag in (([other, byname["K"]], "non-temperature"), ([byname["degC"]], "single-operand"), ([byname["K"], None], "second-is-None")):
+            if fname == "_difference_units" and tag == "single-operand":
+                continue  # point - nothing is not a call form (reductions use _preserve_units)
+            out = decide(arr, fn, args, glob)
+            res.check(out.kind == "return" and isinstance(out.value, tuple) and out.value[0] == 1 and out.value[1] is args[0], f"{fname}:{tag}", fn.where(out.node), f"{fname} must keep the first operand's unit for {tag} calls", args[0], out, rid=r5)
+        for a in recs:
+            for b in recs:
+                key = f"{fname}:{a.name}{op}{b.name}"
+                gst = guarded(fname, a, b)
+                if gst is not None:
+                    must_work = a.name == b.name and (kind(a) == "difference" or a.name in ("degC", "degF"))
+                    res.check(not must_work, key, ua.fn.where(gst), f"{a.name} {op} {b.name} is refused by a guard of __array_ufunc__ although both operands are written in the same unit", "a value", "raise", rid=r5)
+                    continue
+                out = decide(arr, fn, [a, b], glob)
+                if out.kind == "raise":
+                    # refusing is always allowed ("whenever ... returns a value"); except that like units must work
+                    must_work = a.name == b.name and (kind(a) == "difference" or a.name in ("degC", "degF"))
+                    res.check(not must_work, key, fn.where(out.node), f"{a.name} {op} {b.name} is refused although both operands are written in the same unit", "a label", out, rid=r5)
+                    continue
+                lab = out.value[1] if isinstance(out.value, tuple) and len(out.value) == 2 else None
+                if not isinstance(lab, Rec) or out.value[0] != 1:
+                    res.bad(key, fn.where(out.node), f"{fname} returns {out.value!r} for {a.name} {op} {b.name}: not (1, unit)", rid=r5)
+                    continue
+                ka, kb = kind(a), kind(b)
+                if op == "+":
+                    want = "point" if "point" in (ka, kb) else "difference"
+                    constrained = not (ka == kb == "point")
+                else:
+                    want = "difference" if ka == kb else "point"
+                    constrained = not (ka == "difference" and kb == "point")  # difference - point is not an affine operation
+                same_scale = lab.attrs["base_value"] == a.attrs["base_value"]
+                ok = same_scale and lab.attrs["dimensions"] is TEMP and (not constrained or kind(lab) == want)
+                # two different offset scales must never be combined into a value
+                if ka == kb == "point" and a.attrs["base_value"] != b.attrs["base_value"]:
+                    ok = False
+                res.check(ok, key, fn.where(out.node), f"{a.name} {op} {b.name} is computed in {a.name}'s scale and is a {want}; {fname} labels it {lab.name} (scale {lab.attrs['base_value']!r}, a {kind(lab)})", f"a {want} unit with scale {a.attrs['base_value']!r}", f"{lab.name}", rid=r5)
 
 
 def guards(repo, res):
